@@ -590,6 +590,8 @@ class Rdata:
         # handling.
         rdcomment = kwargs.get("rdcomment", self.rdcomment)
         if rdcomment is not None:
+            if "\n" in rdcomment or "\r" in rdcomment:
+                raise ValueError("rdcomment must not contain a line break")
             object.__setattr__(rd, "rdcomment", rdcomment)
         return rd
 
